@@ -85,9 +85,13 @@ type Input struct {
 	TsaRevocationError bool     `json:"tsaRevocationError"`
 	TsaRevocation      []string `json:"tsaRevocation"`
 	TsaChainLen        int      `json:"tsaChainLen"`
+	// how the TYPE prefixes of the trust store entries are spelled: "canonical" | "otherCase" | "padded"
+	TsaTypeSpelling     string `json:"tsaTypeSpelling"`
+	SigningTypeSpelling string `json:"signingTypeSpelling"`
 }
 
 type Obs struct {
+	Refused      bool `json:"refused"` // NewVerifierWithOptions refused the policy: no verification possible
 	Evaluated    bool `json:"evaluated"`
 	ExpiryFailed bool `json:"expiryFailed"`
 	AuthTsFailed bool `json:"authTsFailed"`
@@ -190,6 +194,8 @@ type plan struct {
 	focus     string
 	stmt      string              // name of the trust policy statement
 	level     string              // shape of signatureVerification (see levelShapes); "" = logBoth
+	tsaType   string              // how the statement spells the type of its tsa entries ("" = "tsa")
+	signType  string              // how it spells the type of the ca / signingAuthority entry ("" = canonical)
 	content   map[string][]string // TSA roots ("A","B","C") held by the tsa stores "c06tsa" and "other" in this case
 }
 
@@ -380,6 +386,19 @@ func genPlanRaw(r *rand.Rand) plan {
 		"other":  pick(r, []string{"B"}, []string{"B"}, []string{"B"}, []string{"A"}, []string{"C"}),
 	}
 	p.stmt = pick(r, "c06", "c06", "c06", "c06-second-statement")
+	// the spelling of the store TYPES: another letter case or white space around the type.  Today's policy
+	// validation refuses such a statement (then nothing can be verified); an implementation that accepts one
+	// must serve AND count the entry as what it denotes.
+	if len(p.stores) > 0 && r.Intn(10) == 0 {
+		p.tsaType = pick(r, "TSA", "Tsa", "tSA", "TSA", "Tsa", " tsa", "tsa ")
+	}
+	if r.Intn(20) == 0 {
+		if p.scheme == "x509" {
+			p.signType = pick(r, "CA", "Ca", "cA", " ca", "ca ")
+		} else {
+			p.signType = pick(r, "signingauthority", "SigningAuthority", "SIGNINGAUTHORITY", " signingAuthority", "signingAuthority ")
+		}
+	}
 	p.option = pick(r, "unset", "always", "afterCertExpiry", "afterCertExpiry")
 
 	// signing time: relative to the common interval of the windows, boundaries included
@@ -642,9 +661,16 @@ func concretise(w *world, p plan, id int, ref time.Time) *prepared {
 	}
 	env := build()
 
-	q.trustStores = []string{q.storeType + ":c06"}
+	signType, tsaType := q.storeType, "tsa"
+	if p.signType != "" {
+		signType = p.signType
+	}
+	if p.tsaType != "" {
+		tsaType = p.tsaType
+	}
+	q.trustStores = []string{signType + ":c06"}
 	for _, s := range p.stores {
-		q.trustStores = append(q.trustStores, "tsa:"+s)
+		q.trustStores = append(q.trustStores, tsaType+":"+s)
 	}
 	if len(p.stores) > 0 && id%3 == 0 {
 		// the position of the tsa entries must not matter
@@ -653,7 +679,8 @@ func concretise(w *world, p plan, id int, ref time.Time) *prepared {
 
 	in := Input{Scheme: p.scheme, SigningTime: rel(signingTime), Option: p.option,
 		TsaListed: len(p.stores) > 0, TsaStoresLoad: !contains(p.stores, "broken"),
-		TsaRevocationError: p.revErr, TsaRevocation: p.rev, TsaChainLen: 2}
+		TsaRevocationError: p.revErr, TsaRevocation: p.rev, TsaChainLen: 2,
+		TsaTypeSpelling: spellingOf(p.tsaType, "tsa"), SigningTypeSpelling: spellingOf(p.signType, q.storeType)}
 	if _, ok := w.interTSA[p.token]; ok {
 		in.TsaChainLen = 3
 	}
@@ -715,6 +742,19 @@ func concretise(w *world, p plan, id int, ref time.Time) *prepared {
 	q.sigBlob = env.WithTimestamp(token)
 	q.in = in
 	return q
+}
+
+// spellingOf classifies how a store type is written in the statement.
+func spellingOf(written, canonical string) string {
+	switch {
+	case written == "" || written == canonical:
+		return "canonical"
+	case strings.EqualFold(written, canonical):
+		return "otherCase"
+	case strings.EqualFold(strings.TrimSpace(written), canonical):
+		return "padded"
+	}
+	panic("c06: store type spelling " + written)
 }
 
 // ociVerifier is what verifier.NewVerifierWithOptions returns, as far as the harness needs it.
@@ -850,7 +890,8 @@ func (s *session) newVerifier(stmt string, trustStores []string, option string, 
 	v, err := verifier.NewVerifierWithOptions(s.store, verifier.VerifierOptions{OCITrustPolicy: doc,
 		RevocationTimestampingValidator: s.tsRec, RevocationCodeSigningValidator: s.csRec})
 	if err != nil {
-		panic(err)
+		// policy validation refused the statement: no verification possible (an observation, not a harness error)
+		return nil
 	}
 	return v
 }
@@ -868,6 +909,9 @@ func (s *session) verifierFor(q *prepared) ociVerifier {
 	v, ok := s.verifiers[key]
 	if !ok {
 		v = s.newVerifier(stmtOf(&q.p), q.trustStores, q.p.option, levelOf(&q.p))
+		if v == nil {
+			return nil
+		}
 		s.verifiers[key] = v
 	}
 	s.uses[key]++
@@ -917,6 +961,10 @@ func (s *session) execute(q *prepared, fresh bool) (Obs, time.Time, time.Time) {
 		s.script(q)
 		v = s.verifierFor(q)
 	}
+	if v == nil {
+		now := time.Now()
+		return Obs{Refused: true, TsaRevocationArgsOk: true, SigningRevocationArgsOk: true}, now, now
+	}
 	before := time.Now()
 	var outcome *notation.VerificationOutcome
 	var verr error
@@ -964,7 +1012,7 @@ func runCase(s *session, p plan, id int) (Input, Obs) {
 	now0 := time.Now()
 	q := concretise(s.w, p, id, now0.Truncate(time.Second))
 	o, _, after := s.execute(q, id%10 == 9)
-	if !o.Evaluated {
+	if !o.Evaluated && !o.Refused {
 		fmt.Fprintf(os.Stderr, "c06: case %d: expiry / authenticTimestamp were not evaluated\n", id)
 	}
 	if d := after.Sub(now0); d > 20*time.Second {
@@ -1199,6 +1247,10 @@ func Run(c *common.Ctx) error {
 		c.Count("scheme=" + p.scheme)
 		c.Count("option=" + p.option)
 		c.Count("level=" + levelOf(&p))
+		c.Count("storeTypeSpelling=tsa:" + in.TsaTypeSpelling + " signing:" + in.SigningTypeSpelling)
+		if obs.Refused {
+			c.Count("policy=refused")
+		}
 		c.Count("focus=" + p.focus)
 		c.Count(fmt.Sprintf("chainLen=%d", len(p.nb)))
 		c.Count(fmt.Sprintf("tsaStores=%v", p.stores))
@@ -1237,7 +1289,7 @@ func Run(c *common.Ctx) error {
 			}
 		}
 	}
-	c.Note("random product of: scheme x chain length 1..4 with independent per-certificate windows (valid / one expired / one not yet valid / mixed / barely valid at 60 s / expired long ago) x signing time on, one ns / one s off and far from the window boundaries x expiry absent / past / future x tsa store listings (none, listed, other, both, empty, failing, duplicate; any position) x verifyTimestamp unset/always/afterCertExpiry x countersignature (absent, garbage, good - also from TSAs with an intermediate CA without EKU / with the time stamping EKU -, 19 single faults incl. an intermediate CA restricted to code signing or to TLS, double faults) x level shape (expiry/authenticTimestamp logged; the same with the override revocation: skip; strict, permissive with authenticTimestamp enforced, audit - each with revocation: skip) x time range (inside, on the boundaries, 1 us / 1 ms / 1 s outside, before, after, huge accuracy, baseline-policy default accuracy); hand-assembled ES256 JWS envelopes, local RFC 3161 TSA, real verifier.Verify with expiry/authenticTimestamp set to log. `now` is the harness's clock reading; everything compared with the clock is at least 60 s away from it.")
+	c.Note("random product of: scheme x chain length 1..4 with independent per-certificate windows (valid / one expired / one not yet valid / mixed / barely valid at 60 s / expired long ago) x signing time on, one ns / one s off and far from the window boundaries x expiry absent / past / future x tsa store listings (none, listed, other, both, empty, failing, duplicate; any position) x verifyTimestamp unset/always/afterCertExpiry x countersignature (absent, garbage, good - also from TSAs with an intermediate CA without EKU / with the time stamping EKU -, 19 single faults incl. an intermediate CA restricted to code signing or to TLS, double faults) x spelling of the store TYPES in the statement (canonical; another letter case or white space around the type for the tsa entries / the ca or signingAuthority entry - refused by today's policy validation: 'no verification possible') x level shape (expiry/authenticTimestamp logged; the same with the override revocation: skip; strict, permissive with authenticTimestamp enforced, audit - each with revocation: skip) x time range (inside, on the boundaries, 1 us / 1 ms / 1 s outside, before, after, huge accuracy, baseline-policy default accuracy); hand-assembled ES256 JWS envelopes, local RFC 3161 TSA, real verifier.Verify with expiry/authenticTimestamp set to log. `now` is the harness's clock reading; everything compared with the clock is at least 60 s away from it.")
 	c.Note("state across calls: two tenants (separate trust store, validator and verifier objects, same statement and store names) run interleaved; per tenant one long-lived verifier per policy shape (statement name x store list x option: %d verifier objects, the busiest used %d times); the contents of the stores change from case to case under unchanged names - the signing root under ca:c06 / signingAuthority:c06 is new in every case, tsa:c06tsa and tsa:other hold varying subsets of three TSA roots - so the same statement name and store list see a TSA root trusted-then-distrusted and distrusted-then-trusted many times (history=... counters), on the same verifier, on the other tenant's, and on the brand-new verifier over brand-new store objects that every tenth case uses; the validator answers with 0..3 results for the 2-certificate TSA chain.", shapes, maxUses)
 	c.Note("long-lived-verifier cases (%d envelopes): expiry / NotAfter / NotBefore = T+4 s, verified on a long-lived verifier at T (phase 1) and again, after the whole case stream, at >= T+7 s on the SAME verifier and on a new one (phase 2); for these cases only, the clock margin is relaxed from 60 s to >= 1.5 s (phase 1) / >= 3 s (phase 2); they test that verdicts follow the real clock over a verifier's lifetime, not boundaries; a case whose margin was lost to a stall is skipped and counted.", len(ll))
 	return nil
